@@ -10,26 +10,32 @@
          outcome (run api (input shape depth)) = Success \/ exists e, outcome (...) = ErrorValue e
        /\ exists B, forall input, stack_bytes (run api input) <= B.        -- B independent of the depth
 
-   What IS proved here, for all inputs, is the part a model can carry — positive statements are named [_partial]:
-   (a) the pull parser keeps its continuation on the heap; (b) recursion depth of the push loader and of tree
-   traversals = nesting depth; (c) the scanner's flow-level limit; (g) for EVERY token stream the parser nests at
-   most twice as deep as the tokens; (h) for EVERY input the flow level of the scanned token stream is within the
-   limit; (i) both composed: for EVERY text the nesting is at most 2 * (255 + block collection starts + synthetic
-   FlowMappingStart tokens), so the recursion of (b) is bounded by that; (j) the same as an executable oracle.
-   And the REFUTATION of any bound in the current code ([_refuted]): (d) block nesting, (e) the remaining flow-limit
-   bypass — exactly the two kinds of token (i) charges.  (f): the bypass repaired by c5ad60c is rejected.
-   Together with the measured frame sizes this explains the recorded findings (known_findings_c11.jsonl): the three
-   recursive consumers recurse once per nesting level, nothing limits block nesting and the flow limit does not see
-   the mappings of bare ':' indicators.
+   What IS proved here, for ALL inputs, is the part a model can carry, and since /repo 99c201b (block nesting limited),
+   597a354 (one implicit mapping per flow-sequence entry) and 88700d3 (a closer must match its level) it is the whole
+   model-level content of the property:
+
+     HEADLINE (k)  C11_text_nesting_bounded: for EVERY text the events of the whole model pipeline nest at most
+                   NEST_BOUND = 2 * (BLOCK_NESTING_MAX + 3 * FLOW_LEVEL_MAX + 1) deep — a CONSTANT, stated with the limits
+                   the translator generates from the Rust source (Gen/Consts.v) — and therefore (b1), (b2) the recursion of
+                   Parser::load is at most 1 + NEST_BOUND activations for every text, and drop / clone / eq / hash / emit of
+                   what an accepted alias-free text loads to recurse at most d + NEST_BOUND deep.
+
+   The pieces: (a) the pull parser keeps its continuation on the heap; (b) recursion depth of the push loader and of tree
+   traversals = nesting depth; (c) the scanner's flow-level limit, (c') its block-nesting limit; (g) for EVERY token stream
+   the parser nests at most twice as deep as the tokens; (h) for EVERY input the flow level of the scanned token stream is
+   within the limit; (h') NEW for EVERY input the nesting of the WHOLE scanned token stream — block collection starts,
+   '[' / '{', synthetic FlowMappingStart tokens — is within NEST_TOK_BOUND (invariant J of Proofs/DepthNest.v over every
+   function of the scanner model); (i) the finer bound 2 * (255 + block starts + synthetic starts); (j) all of it as an
+   executable oracle.  (d) is a REMARK about the parser alone; (f): the bypass repaired by c5ad60c is rejected.
 
    Model: Model/Parser.v (pull parser), Model/SBase/SPrim/SDir/SScalar/SFetch.v (scanner), Model/Depth.v (push loader
    load_node/load_sequence/load_mapping, structural tree traversal, token nesting, flow level of a token stream,
-   witness families, oracle), Model/Loader.v (tree), Gen/Consts.v (FLOW_LEVEL_MAX, generated from the declared type
-   of Scanner::flow_level).  Proofs: Proofs/DepthProofs.v (a)-(f), DepthTok.v + DepthTokRun.v (g), DepthScan.v (h),
-   DepthText.v (i), (j).  Only statements here, each closed by [exact] of a lemma. *)
+   witness families, bounds, oracle), Model/Loader.v (tree), Gen/Consts.v (FLOW_LEVEL_MAX, BLOCK_NESTING_MAX: generated).
+   Proofs: Proofs/DepthProofs.v (a)-(f), DepthTok.v + DepthTokRun.v (g), DepthScan.v (h), DepthNest.v (c') (h'),
+   DepthText.v (i), (j), (k).  Only statements here, each closed by [exact] of a lemma. *)
 From Coq Require Import List NArith Bool.
 Import ListNotations.
-Require Import Parser SFetch Pipe Drivers Grammar Resolver Loader C02run Depth DepthProofs DepthTok DepthTokRun DepthScan DepthTree DepthText.
+Require Import Parser SFetch Pipe Drivers Grammar Resolver Loader C02run Depth DepthProofs DepthTok DepthTokRun DepthScan DepthNest DepthTree DepthAlias DepthText.
 Require SBase SPrim SBuf Consts.
 Local Open Scope nat_scope.
 
@@ -84,55 +90,44 @@ Theorem C11_flow_level_limit_is_an_error_partial : forall (I : Type) (s : SBase.
 Proof. exact (@increase_flow_level_at_limit). Qed.
 Print Assumptions C11_flow_level_limit_is_an_error_partial.
 
-(* (d) Block nesting is NOT limited.  For every d the token stream
+(* (c') Block nesting is limited the same way (/repo 99c201b): the only function of the scanner model that pushes a block
+   entry on the indent stack is roll_indent.  With BLOCK_NESTING_MAX entries on the stack, a block collection that needs
+   one more level (flow level 0, column beyond the current indent, no non-block entry on top to replace) is scan error
+   site 46 ("recursion limit exceeded") at the current mark — the 256th nested "- " / "? " / "k:" is an error VALUE — *)
+Theorem C11_block_nesting_limit_is_an_error_partial :
+  forall (I : Type) col number tk mk (s : SBase.sc I),
+  SBase.sc_flow_level s = 0%N -> BinInt.Z.lt (SBase.sc_indent s) (BinInt.Z.of_N col) ->
+  (Consts.BLOCK_NESTING_MAX <= N.of_nat (length (SBase.sc_indents s)))%N ->
+  match SBase.sc_indents s with i :: _ => SBase.in_needs_block_end i = true | [] => True end ->
+  SPrim.roll_indent col number tk mk s = SBase.Err 46 (SBase.sc_mark s).
+Proof. exact (@roll_indent_at_limit). Qed.
+Print Assumptions C11_block_nesting_limit_is_an_error_partial.
+
+(* ... and whenever roll_indent returns normally, the indent stack holds at most BLOCK_NESTING_MAX block entries
+   ([nb] counts the entries that owe a BlockEnd token), at most one more than before *)
+Theorem C11_block_indents_bounded_partial :
+  forall (I : Type) col number tk mk (s : SBase.sc I) u s',
+  SPrim.roll_indent col number tk mk s = SBase.Ok (u, s') -> nb (SBase.sc_indents s) <= N.to_nat Consts.BLOCK_NESTING_MAX ->
+  nb (SBase.sc_indents s') <= N.to_nat Consts.BLOCK_NESTING_MAX /\ nb (SBase.sc_indents s') <= S (nb (SBase.sc_indents s)).
+Proof. exact (@roll_indent_within_limit). Qed.
+Print Assumptions C11_block_indents_bounded_partial.
+
+(* (d) REMARK — the PARSER alone has no nesting limit of its own: for every d the token stream
          StreamStart (BlockSequenceStart BlockEntry)^d Scalar BlockEnd^d StreamEnd
-   — what the scanner delivers for the 2d+1 bytes  "- " * d ++ "a"  (compared with the real scanner on every
-   run of the check) — has 3d+3 tokens, is accepted by the parser model, and its events nest d deep. *)
-Theorem C11_block_family_accepted : forall d keep se,
+   (3d+3 tokens) is accepted by the parser model and its events nest d deep.  Up to d = BLOCK_NESTING_MAX this is what the
+   scanner delivers for  "- " * d ++ "a"  (compared with the real scanner on every run of the check); for larger d the
+   scanner can no longer deliver these tokens (/repo 99c201b: roll_indent fails with site 46, examples below), so this is
+   a statement about the parser alone, not about reachable behaviour: the limit lives in the scanner — theorems (c), (c'),
+   (h), (h'), (i).  (The refutation theorems built on this family and on the bare-':' family of the old scanner —
+   C11_block_unbounded_refuted, C11_recursion_unbounded_refuted, C11_flow_limit_bypass_family,
+   C11_flow_limit_bounds_nesting_refuted — described the two recorded findings, which /repo 99c201b, 597a354 and 88700d3
+   repaired; they are deleted.) *)
+Theorem C11_parser_alone_has_no_nesting_limit_remark : forall d keep se,
   length (seq_tokens_flat d) = 3 * d + 3
   /\ parse_tokens (seq_tokens_flat d) se keep = (evsp (seq_events d), PDone)
   /\ max_nesting (seq_events d) = d.
 Proof. exact block_family_accepted. Qed.
-Print Assumptions C11_block_family_accepted.
-
-(* so "the parser accepts nothing nested deeper than B" is false for every B *)
-Theorem C11_block_unbounded_refuted : forall B, ~ block_nesting_bounded B.
-Proof. exact block_nesting_unbounded. Qed.
-Print Assumptions C11_block_unbounded_refuted.
-
-(* ... and therefore no bound exists for the recursion of the push loader, nor for the depth of the tree
-   the loader builds (hence for drop / clone / eq / hash / emit): for every B there is an accepted input on
-   which load_document nests more than B activations and whose loaded tree is walked deeper than B. *)
-Theorem C11_recursion_unbounded_refuted :
-  forall B, exists toks evs fuel rest m y,
-    parse_tokens toks SEnded false = (evsp evs, PDone)
-    /\ pl_document fuel (tl evs) = PlDone rest m /\ B < m
-    /\ load_events evs l0 = LOk {| l_docs := [y]; l_stack := []; l_keys := []; l_anchors := [] |}
-    /\ B < ywalk 1 y.
-Proof. exact recursion_unbounded. Qed.
-Print Assumptions C11_recursion_unbounded_refuted.
-
-(* (e) The flow limit can still be BYPASSED (recorded finding, class C11-flow-limit-bypass).  For every d >= 1 the
-   token stream of
-         "[" ++ " :" * d ++ " " ++ "}" * d ++ "]"
-   — 3d+4 tokens: the else-branch of fetch_value pushes one SYNTHETIC (empty-span) FlowMappingStart per bare ':'
-   without touching flow_level, so the scanner's flow level along the stream ([tok_flow_max]: +1 at a '[' or '{'
-   token, -1 at a flow collection end) never exceeds 1 and increase_flow_level never fails — is ACCEPTED by the
-   parser model and its events nest d+1 deep (the sequence and d mappings). *)
-Theorem C11_flow_limit_bypass_family : forall d keep se,
-  1 <= d ->
-  length (cflow_tokens d) = 3 * d + 4
-  /\ tok_flow_max (cflow_tokens d) = 1
-  /\ parse_tokens (cflow_tokens d) se keep = (evsp (cflow_events d), PDone)
-  /\ max_nesting (cflow_events d) = d + 1.
-Proof. exact flow_limit_bypass. Qed.
-Print Assumptions C11_flow_limit_bypass_family.
-
-(* so "a token stream whose flow level stays within L is nested at most L+1 deep" is false for every L >= 1,
-   in particular for L = FLOW_LEVEL_MAX: theorem (c) alone does not bound the nesting of flow collections *)
-Theorem C11_flow_limit_bounds_nesting_refuted : forall L, 1 <= L -> ~ flow_limit_bounds_nesting L.
-Proof. exact flow_limit_does_not_bound_nesting. Qed.
-Print Assumptions C11_flow_limit_bounds_nesting_refuted.
+Print Assumptions C11_parser_alone_has_no_nesting_limit_remark.
 
 (* (f) The FIRST bypass family is gone (repaired by c5ad60c; was theorem C11_flow_limit_bypass_family before).  For
    every d >= 1 the token stream of
@@ -191,50 +186,135 @@ Theorem C11_flow_indicator_tokens_are_counted_partial :
 Proof. exact (@fetch_flow_collection_start_counted). Qed.
 Print Assumptions C11_flow_indicator_tokens_are_counted_partial.
 
-(* (i) Both together, for EVERY text through the whole model pipeline [run_str] (accepted or not): the events nest at
+(* (h') NEW — the scanner, for EVERY input (any Input back-end [ops], any fuel), however the scan ends: along the token
+   stream it delivers, the collection-start tokens of ALL kinds (BlockSequenceStart, BlockMappingStart, FlowSequenceStart,
+   FlowMappingStart — from a '{' or synthetic) not yet matched by an end token never number more than
+       NEST_TOK_BOUND = BLOCK_NESTING_MAX + 3 * FLOW_LEVEL_MAX + 1.
+   Invariant [J] of Proofs/DepthNest.v over every function of the scanner model: open starts <= block entries of
+   sc_indents (<= BLOCK_NESTING_MAX by (c')) + flow_level (<= FLOW_LEVEL_MAX by (c)) + ImInside entries of sc_ifms (one per
+   flow level at most: /repo 597a354 pushes the synthetic FlowMappingStart only on the ImPossible -> ImInside transition,
+   88700d3 pops an entry only for its own closer); the remaining FLOW_LEVEL_MAX + 1 is the allowance for start tokens that
+   fetch_value / roll_indent INSERT in front of already queued tokens, at the saved position of a simple key: one per
+   simple key (one key per flow level + 1, C15's skeleton invariant), spent when the key is used. *)
+Theorem C11_scanner_token_nesting_bounded : forall (I : Type) (ops : SBase.InputOps I) (F fuel : nat) (i : I),
+  tok_nest_max (fst (scan_all ops F fuel (SBase.init_sc i) [])) <= NEST_TOK_BOUND.
+Proof. exact (@scan_token_nesting_bounded). Qed.
+Print Assumptions C11_scanner_token_nesting_bounded.
+
+(* NOT proved — the TIGHT constant of (h').  The allowance FLOW_LEVEL_MAX + 1 of (h') is an artefact of the proof: the key
+   of flow level j can only insert a FlowMappingStart while sc_ifms[j] is ImPossible, i.e. while that level does not yet
+   count an ImInside entry, so per flow level "ImInside or a key that may still insert" is at most 1; a proof needs the
+   key stack and sc_ifms aligned level by level in (J2).  The value BLOCK_NESTING_MAX + 2 * FLOW_LEVEL_MAX = 765 is
+   reached (example C11_token_nesting_765_is_reached) and is the largest value the check has ever seen on the real
+   scanner (coverage: oracle.deepest_token_nesting). *)
+Definition C11_token_nesting_tight : Prop :=
+  forall (I : Type) (ops : SBase.InputOps I) (F fuel : nat) (i : I),
+  tok_nest_max (fst (scan_all ops F fuel (SBase.init_sc i) []))
+  <= N.to_nat Consts.BLOCK_NESTING_MAX + 2 * N.to_nat Consts.FLOW_LEVEL_MAX.
+
+(* (k) HEADLINE — (g) o (h'), for EVERY text through the whole model pipeline (accepted or not): the events nest at most
+   NEST_BOUND deep, a constant that follows the limits of the Rust source through Gen/Consts.v *)
+Theorem C11_text_nesting_bounded : forall text,
+  max_nesting (evs_of (fst (run_str text)))
+  <= 2 * (N.to_nat Consts.BLOCK_NESTING_MAX + 3 * N.to_nat Consts.FLOW_LEVEL_MAX + 1).
+Proof. exact run_str_nesting_const. Qed.
+Print Assumptions C11_text_nesting_bounded.
+
+(* the same over the buffered input back-end of ANY capacity *)
+Theorem C11_text_nesting_bounded_buffered : forall cap text,
+  max_nesting (evs_of (fst (SBuf.run_buf cap text)))
+  <= 2 * (N.to_nat Consts.BLOCK_NESTING_MAX + 3 * N.to_nat Consts.FLOW_LEVEL_MAX + 1).
+Proof. exact run_buf_nesting_const. Qed.
+Print Assumptions C11_text_nesting_bounded_buffered.
+
+(* ... with (b1): whenever load_document (Parser::load) returns on the events of ANY text, the deepest chain of live
+   load_node activations was at most 1 + NEST_BOUND — the recursion of the push interface is bounded by a constant *)
+Theorem C11_push_loader_recursion_bounded : forall text fuel' rest m,
+  pl_document fuel' (tl (evs_of (fst (run_str text)))) = PlDone rest m -> m <= 1 + NEST_BOUND.
+Proof. exact push_loader_recursion_const. Qed.
+Print Assumptions C11_push_loader_recursion_bounded.
+
+Theorem C11_push_loader_recursion_bounded_buffered : forall cap text fuel' rest m,
+  pl_document fuel' (tl (evs_of (fst (SBuf.run_buf cap text)))) = PlDone rest m -> m <= 1 + NEST_BOUND.
+Proof. exact push_loader_recursion_const_buffered. Qed.
+Print Assumptions C11_push_loader_recursion_bounded_buffered.
+
+(* ... with (b2), for the LOADED tree of every accepted alias-free text: every document is at most NEST_BOUND deep and a
+   recursive traversal (drop, clone, eq, hash, emit) entered at depth d reaches at most d + NEST_BOUND.  (With aliases the
+   tree can be deeper than the events nest — example C11_alias_deepens_the_tree; not covered.) *)
+Theorem C11_loaded_tree_walk_bounded : forall text,
+  snd (run_str text) = PDone -> alias_free_events (evs_of (fst (run_str text))) = true ->
+  exists ld, load_events (evs_of (fst (run_str text))) l0 = LOk ld
+             /\ Forall (fun y => ydepth y <= NEST_BOUND /\ forall d, ywalk d y <= d + NEST_BOUND) (l_docs ld).
+Proof. exact loaded_tree_walk_const. Qed.
+Print Assumptions C11_loaded_tree_walk_bounded.
+
+(* (l) ALIASES — what no nesting limit bounds (recorded finding C11-alias-chain-tree-depth).  An alias inserts a COPY of the
+   completed anchored node, so the loaded tree can be deeper than the events nest.  The alias-chain family
+         "- &a0 [a]" / "- &a1 [*a0]" / ... / "- &a(n-1) [*a(n-2)]"
+   as an event sentence [alias_events n] (3n + 6 events, what the model pipeline makes of the text: example below): accepted
+   by the grammar, event nesting 2 for EVERY n — and the loader model builds one document n + 1 deep (by induction on n), so
+   Clone (inside the loader), Drop and the emitter recurse n + 1 deep on it. *)
+Theorem C11_alias_chain_family : forall n, 1 <= n ->
+  grun GInit (alias_events n) = Some GEnd
+  /\ max_nesting (alias_events n) = 2
+  /\ exists y anchors,
+       load_events (alias_events n) l0 = LOk {| l_docs := [y]; l_stack := []; l_keys := []; l_anchors := anchors |}
+       /\ ydepth y = n + 1 /\ forall d, ywalk d y = d + (n + 1).
+Proof. exact alias_family. Qed.
+Print Assumptions C11_alias_chain_family.
+
+(* so "the documents of an accepted sentence are at most (nesting of the events) + c deep" is false for every c: the bounds
+   (k) on the events say nothing about the tree once aliases are present *)
+Theorem C11_tree_depth_not_bounded_by_nesting_refuted : forall c, ~ tree_depth_bounded_by_nesting c.
+Proof. exact tree_depth_not_bounded_by_nesting. Qed.
+Print Assumptions C11_tree_depth_not_bounded_by_nesting_refuted.
+
+(* ... and the bound that DOES hold with aliases, for every accepted sentence: no document is deeper than the sentence has
+   collection-start events (every level of a chain in the tree is, or is a copy of, a node built for a different
+   SequenceStart / MappingStart event: an alias can only refer to a node completed before it).  Linear in the size of the
+   input — which is the finding — and reached by the family (n + 1 collection starts, depth n + 1). *)
+Theorem C11_loaded_tree_depth_bounded_by_collection_starts : forall evs,
+  grun GInit evs = Some GEnd ->
+  exists ld, load_events evs l0 = LOk ld
+             /\ Forall (fun y => ydepth y <= coll_starts evs /\ forall d, ywalk d y <= d + coll_starts evs) (l_docs ld).
+Proof. exact loaded_tree_depth_le_collection_starts. Qed.
+Print Assumptions C11_loaded_tree_depth_bounded_by_collection_starts.
+
+Theorem C11_loaded_tree_depth_bounded_by_collection_starts_for_text : forall text,
+  snd (run_str text) = PDone ->
+  exists ld, load_events (evs_of (fst (run_str text))) l0 = LOk ld
+             /\ Forall (fun y => ydepth y <= coll_starts (evs_of (fst (run_str text)))
+                                 /\ forall d, ywalk d y <= d + coll_starts (evs_of (fst (run_str text)))) (l_docs ld).
+Proof. exact loaded_tree_depth_le_collection_starts_for_text. Qed.
+Print Assumptions C11_loaded_tree_depth_bounded_by_collection_starts_for_text.
+
+(* (i) The finer, input-dependent bound (g) o (h), for EVERY text through [run_str] (accepted or not): the events nest at
    most twice as deep as FLOW_LEVEL_MAX plus the number of collection-start tokens that the flow level does not
-   count — block collection starts and the synthetic FlowMappingStart tokens of implicit pairs.  These two kinds of
-   token are exactly the two recorded classes of finding (block nesting (d), bypass family (e)): nothing else can
-   nest without limit. *)
+   count — block collection starts and the synthetic FlowMappingStart tokens of implicit pairs (both bounded now, (h'));
+   tighter than (k) for texts with few of them, e.g. 2 * 255 for pure flow texts. *)
 Theorem C11_text_nesting_bounded_partial : forall text,
   max_nesting (evs_of (fst (run_str text)))
   <= 2 * (N.to_nat Consts.FLOW_LEVEL_MAX + other_openers (fst (scan_str text))).
 Proof. exact run_str_nesting_bounded. Qed.
 Print Assumptions C11_text_nesting_bounded_partial.
 
-(* the same over the buffered input back-end of ANY capacity (the scanner theorem (h) holds for every back-end) *)
-Theorem C11_text_nesting_bounded_buffered_partial : forall cap text,
-  max_nesting (evs_of (fst (SBuf.run_buf cap text)))
-  <= 2 * (N.to_nat Consts.FLOW_LEVEL_MAX + other_openers (fst (scan_buf cap text))).
-Proof. exact run_buf_nesting_bounded. Qed.
-Print Assumptions C11_text_nesting_bounded_buffered_partial.
+(* (the corollaries of this finer bound — buffered back-end, pure flow texts, push loader and tree walk for a text — are
+   superseded by the constant bounds (k) and no longer stated; Proofs/DepthText.v still proves them)
 
-Theorem C11_pure_flow_text_nesting_bounded_partial : forall text,
-  other_openers (fst (scan_str text)) = 0 ->
-  max_nesting (evs_of (fst (run_str text))) <= 2 * N.to_nat Consts.FLOW_LEVEL_MAX.
-Proof. exact pure_flow_text_nesting_bounded. Qed.
-Print Assumptions C11_pure_flow_text_nesting_bounded_partial.
-
-(* ... and with (b1): whenever load_document (Parser::load) returns on the events of a run, the deepest chain of
-   load_node activations is at most 1 + twice the nesting of the tokens — for a text: at most
-   1 + 2 * (255 + uncounted collection starts) *)
+   ... and with (b1), for ANY token stream: whenever load_document (Parser::load) returns on the events of a run, the
+   deepest chain of load_node activations is at most 1 + twice the nesting of the tokens *)
 Theorem C11_push_loader_recursion_bounded_by_tokens_partial : forall toks keep se fuel fuel' rest m,
   pl_document fuel' (tl (evs_of (fst (parse_all fuel (init_parser toks keep) se [])))) = PlDone rest m ->
   m <= 1 + 2 * tok_nest_max toks.
 Proof. exact push_loader_recursion_bounded_by_tokens. Qed.
 Print Assumptions C11_push_loader_recursion_bounded_by_tokens_partial.
 
-Theorem C11_push_loader_recursion_bounded_for_text_partial : forall text fuel' rest m,
-  pl_document fuel' (tl (evs_of (fst (run_str text)))) = PlDone rest m ->
-  m <= 1 + 2 * (N.to_nat Consts.FLOW_LEVEL_MAX + other_openers (fst (scan_str text))).
-Proof. exact push_loader_recursion_bounded_for_text. Qed.
-Print Assumptions C11_push_loader_recursion_bounded_for_text_partial.
 
 (* ... and with (b2), for the LOADED tree (drop, clone, eq, hash, emit): every event sentence the grammar accepts and
    that holds no alias loads — without panic — to documents that are no deeper than the events nest; so for every
-   accepted alias-free text a recursive traversal entered at depth d reaches at most d + 2 * (255 + uncounted starts).
-   (An alias copies the completed anchored node into the tree: with aliases the tree can be deeper than the events
-   nest — example C11_alias_deepens_the_tree below; not covered.) *)
+   accepted alias-free text a recursive traversal entered at depth d reaches at most d + NEST_BOUND
+   (C11_loaded_tree_walk_bounded above).  With aliases the tree can be deeper than the events nest: (l). *)
 Theorem C11_loaded_tree_depth_bounded_partial : forall evs,
   grun GInit evs = Some GEnd -> alias_free_events evs = true ->
   exists ld, load_events evs l0 = LOk ld
@@ -242,18 +322,11 @@ Theorem C11_loaded_tree_depth_bounded_partial : forall evs,
 Proof. exact loaded_tree_depth_bounded. Qed.
 Print Assumptions C11_loaded_tree_depth_bounded_partial.
 
-Theorem C11_loaded_tree_walk_bounded_for_text_partial : forall text,
-  snd (run_str text) = PDone -> alias_free_events (evs_of (fst (run_str text))) = true ->
-  exists ld, load_events (evs_of (fst (run_str text))) l0 = LOk ld
-             /\ Forall (fun y => forall d, ywalk d y <= d + 2 * (N.to_nat Consts.FLOW_LEVEL_MAX + other_openers (fst (scan_str text))))
-                        (l_docs ld).
-Proof. exact loaded_tree_walk_bounded_for_text. Qed.
-Print Assumptions C11_loaded_tree_walk_bounded_for_text_partial.
 
-(* (j) The three inequalities of (h), (g), (i) as ONE executable oracle [c11_oracle] (Model/Depth.v) — extracted and run
-   by vlib/p_c11.py on the IMPLEMENTATION's tokens and events; on the model it can never fail: *)
+(* (j) The five inequalities of (h), (g), (i), (h'), (k) as ONE executable oracle [c11_oracle] (Model/Depth.v) — extracted
+   and run by vlib/p_c11.py on the IMPLEMENTATION's tokens and events; on the model it can never fail: *)
 Theorem C11_oracle_holds_on_model : forall text,
-  c11_oracle (fst (scan_str text)) (evs_of (fst (run_str text))) = (true, true, true).
+  c11_oracle (fst (scan_str text)) (evs_of (fst (run_str text))) = (true, true, true, true, true).
 Proof. exact oracle_holds_on_model. Qed.
 Print Assumptions C11_oracle_holds_on_model.
 
@@ -261,6 +334,12 @@ Print Assumptions C11_oracle_holds_on_model.
 (* the limit the theorems speak about is the one of the code: u8 *)
 Example C11_flow_limit_is_255 : Consts.FLOW_LEVEL_MAX = 255%N.
 Proof. reflexivity. Qed.
+Example C11_block_limit_is_255 : Consts.BLOCK_NESTING_MAX = 255%N.
+Proof. reflexivity. Qed.
+(* the constants of (h') and (k) with today's limits *)
+Example C11_bounds_today : NEST_TOK_BOUND = 1021 /\ NEST_BOUND = 2042
+  /\ NEST_BOUND = 2 * (N.to_nat Consts.BLOCK_NESTING_MAX + 3 * N.to_nat Consts.FLOW_LEVEL_MAX + 1).
+Proof. repeat split; reflexivity. Qed.
 (* the witness family, concretely: "- - a" *)
 Example C11_family_2 :
   map snd (seq_tokens_flat 2)
@@ -294,34 +373,36 @@ Proof. reflexivity. Qed.
 Example C11_depth_measures :
   max_nesting (seq_events 3) = 3 /\ ydepth (YSeq [YMap [(YBad, YSeq [YBad])]]) = 3 /\ ydepth (YSeq []) = 0.
 Proof. repeat split; reflexivity. Qed.
-(* the bypass family, concretely (d = 3): the text, what the SCANNER MODEL makes of it (synthetic FlowMappingStart
-   tokens have empty spans, the '[' has not), its flow level, and the nested mappings the parser model delivers *)
+(* the old bypass families are rejected by the SCANNER MODEL now: "[ : : : }}}]" (colonsok, d = 3) — the '}' that meets the
+   open '[' is scan error site 48 (88700d3) before a token beyond StreamStart is delivered; "[ : : : ]" (colons) — only the
+   first ':' starts a mapping (597a354: ONE synthetic FlowMappingStart), the second ':' is a parse error; "[ : } , [ : } ]]"
+   (cbrace) — site 48 at the first '}' *)
 Example C11_bypass_3_text :      (* the code points of  [ : : : }}}]  *)
   cflow_text 3 = [91; 32; 58; 32; 58; 32; 58; 32; 125; 125; 125; 93]%N.
 Proof. reflexivity. Qed.
-Example C11_bypass_3_scanned :
-  map snd (fst (scan_str (cflow_text 3))) = map snd (cflow_tokens 3) /\ snd (scan_str (cflow_text 3)) = SEnded
-  /\ map real_flow_open (fst (scan_str (cflow_text 3))) = map real_flow_open (cflow_tokens 3)
-  /\ tok_flow_max (fst (scan_str (cflow_text 3))) = 1.
-Proof. vm_compute. repeat split; reflexivity. Qed.
-Example C11_bypass_3_events :
-  evs_of (fst (parse_tokens (cflow_tokens 3) SEnded false))
-  = [EStreamStart; EDocumentStart false; ESequenceStart 0%N None;
-       EMappingStart 0%N None; null_ev;
-         EMappingStart 0%N None; null_ev;
-           EMappingStart 0%N None; null_ev; null_ev; EMappingEnd;
-         EMappingEnd;
-       EMappingEnd;
-     ESequenceEnd; EDocumentEnd; EStreamEnd]
-  /\ snd (parse_tokens (cflow_tokens 3) SEnded false) = PDone
-  /\ max_nesting (evs_of (fst (parse_tokens (cflow_tokens 3) SEnded false))) = 4.
-Proof. vm_compute. repeat split; reflexivity. Qed.
-(* beyond the limit of the code: 300 nested mappings at flow level 1 *)
-Example C11_bypass_300 :
-  tok_flow_max (cflow_tokens 300) = 1
-  /\ snd (parse_tokens (cflow_tokens 300) SEnded false) = PDone
-  /\ N.to_nat Consts.FLOW_LEVEL_MAX < max_nesting (evs_of (fst (parse_tokens (cflow_tokens 300) SEnded false))).
-Proof. vm_compute. repeat split; apply PeanoNat.Nat.leb_le; vm_compute; reflexivity. Qed.
+Example C11_bypass_3_rejected :
+  map snd (fst (scan_str (cflow_text 3))) = [TStreamStart]
+  /\ (exists m, snd (scan_str (cflow_text 3)) = SError 48 m /\ m_index m = 8%N)
+  /\ max_nesting (evs_of (fst (run_str (cflow_text 3)))) = 0.
+Proof. vm_compute. split; [reflexivity|]. split; [eexists; split; reflexivity|reflexivity]. Qed.
+Example C11_colons_3_rejected :      (* [ : : : ] *)
+  let text := [91; 32; 58; 32; 58; 32; 58; 93]%N in
+  other_openers (fst (scan_str text)) = 1
+  /\ (exists m, snd (run_str text) = PParseErr 11 m /\ m_index m = 4%N)
+  /\ max_nesting (evs_of (fst (run_str text))) = 2.
+Proof. vm_compute. split; [reflexivity|]. split; [eexists; split; reflexivity|reflexivity]. Qed.
+Example C11_cbrace_2_rejected :      (* [ : } , [ : } ]] *)
+  let text := [91; 32; 58; 32; 125; 32; 44; 32; 91; 32; 58; 32; 125; 32; 93; 93]%N in
+  exists m, snd (scan_str text) = SError 48 m /\ m_index m = 4%N.
+Proof. vm_compute. eexists; split; reflexivity. Qed.
+(* the block limit of the scanner model (99c201b): "- " * 255 ++ "a" gives the witness family of (d), the 256th "- " is
+   scan error site 46 at the mark behind it — the limit of the code, not an artefact *)
+Example C11_block_limit_reached :
+  let text d := flat_map (fun _ => [45; 32]%N) (repeat tt d) ++ [97%N] in
+  map snd (fst (scan_str (text 255))) = map snd (seq_tokens_flat 255) /\ snd (scan_str (text 255)) = SEnded
+  /\ max_nesting (evs_of (fst (run_str (text 255)))) = 255
+  /\ (exists m, snd (scan_str (text 256)) = SError 46 m /\ m_index m = 511%N).
+Proof. vm_compute. repeat split; try reflexivity. eexists; split; reflexivity. Qed.
 (* the flow level of real '{' and '[' is counted: "{a: [b, {c: d}]}" reaches level 3 *)
 Example C11_flow_level_counts_real_indicators :
   tok_flow_max (fst (scan_str [123; 97; 58; 32; 91; 98; 44; 32; 123; 99; 58; 32; 100; 125; 93; 125]%N)) = 3.
@@ -343,11 +424,18 @@ Example C11_factor_two_is_tight :
   tok_nest_max (fst (scan_str text)) = 3 /\ other_openers (fst (scan_str text)) = 0
   /\ max_nesting (evs_of (fst (run_str text))) = 6 /\ snd (run_str text) = PDone.
 Proof. vm_compute. repeat split; reflexivity. Qed.
-(* what (i) charges to the two recorded classes: d block collection starts in "- " * d ++ "a", d synthetic
-   FlowMappingStart tokens in "[ : : ... }}}]" *)
+(* what [other_openers] counts: d block collection starts in "- " * d ++ "a", none in the qflow family *)
 Example C11_other_openers_of_the_families :
-  other_openers (seq_tokens_flat 5) = 5 /\ other_openers (cflow_tokens 5) = 5 /\ other_openers (qflow_tokens 5) = 0
-  /\ tok_nest_max (seq_tokens_flat 5) = 5 /\ tok_nest_max (cflow_tokens 5) = 6 /\ tok_nest_max (qflow_tokens 5) = 1.
+  other_openers (seq_tokens_flat 5) = 5 /\ other_openers (qflow_tokens 5) = 0
+  /\ tok_nest_max (seq_tokens_flat 5) = 5 /\ tok_nest_max (qflow_tokens 5) = 1.
+Proof. vm_compute. repeat split; reflexivity. Qed.
+(* the bounds are not far off: "- " * 255 ++ "[a: " * 255 ++ "b" — 255 block sequences, 255 '[' and 255 synthetic
+   FlowMappingStart tokens open at once: token nesting 765 = BLOCK_NESTING_MAX + 2 * FLOW_LEVEL_MAX (proved bound: 1021), and the
+   events nest 765 deep (proved bound: 2042) *)
+Example C11_token_nesting_765_is_reached :
+  let text := flat_map (fun _ => [45; 32]%N) (repeat tt 255) ++ flat_map (fun _ => [91; 97; 58; 32]%N) (repeat tt 255) ++ [98%N] in
+  tok_nest_max (fst (scan_str text)) = 765 /\ max_nesting (evs_of (fst (run_str text))) = 765
+  /\ 765 = N.to_nat Consts.BLOCK_NESTING_MAX + 2 * N.to_nat Consts.FLOW_LEVEL_MAX.
 Proof. vm_compute. repeat split; reflexivity. Qed.
 (* the scanner model does reject the 256th '[' (so the bound of (h) is the limit of the code, not an artefact) *)
 Example C11_flow_limit_reached :
@@ -363,7 +451,7 @@ Example C11_oracle_rejects_the_old_behaviour :
        ESequenceStart 0%N None; EMappingStart 0%N None; null_ev; null_ev; EMappingEnd;
          ESequenceStart 0%N None; EMappingStart 0%N None; null_ev; null_ev; EMappingEnd;
          ESequenceEnd; ESequenceEnd; ESequenceEnd; EDocumentEnd; EStreamEnd]
-  = (true, false, true).
+  = (true, false, true, true, true).
 Proof. vm_compute. reflexivity. Qed.
 (* the hypothesis of the recursion bound is satisfiable and the bound is not far off: "[ ? [ ? [ ? a ] ] ]" *)
 Example C11_push_loader_on_text :
@@ -376,6 +464,13 @@ Example C11_alias_deepens_the_tree :
   snd (run_str text) = PDone /\ max_nesting (evs_of (fst (run_str text))) = 2
   /\ alias_free_events (evs_of (fst (run_str text))) = false
   /\ match load_events (evs_of (fst (run_str text))) l0 with LOk ld => map ydepth (l_docs ld) = [4] | LPanic _ => False end.
+Proof. vm_compute. repeat split; reflexivity. Qed.
+(* the family of (l) IS what the model pipeline makes of the alias-chain text (n = 3): "- &a [a]" / "- &b [*a]" / "- &c [*b]" *)
+Example C11_alias_chain_3_is_the_text :
+  let text := [45; 32; 38; 97; 32; 91; 97; 93; 10;  45; 32; 38; 98; 32; 91; 42; 97; 93; 10;  45; 32; 38; 99; 32; 91; 42; 98; 93; 10]%N in
+  evs_of (fst (run_str text)) = alias_events 3 /\ snd (run_str text) = PDone
+  /\ coll_starts (alias_events 3) = 4 /\ max_nesting (alias_events 3) = 2
+  /\ match load_events (alias_events 3) l0 with LOk ld => map ydepth (l_docs ld) = [4] | LPanic _ => False end.
 Proof. vm_compute. repeat split; reflexivity. Qed.
 (* ... and the hypotheses of the tree bound are satisfiable *)
 Example C11_tree_bound_applies :
